@@ -30,7 +30,13 @@ CONSTANTS
     RemoteBodies,  \* RemoteBodies[i] = "remote operation with seq i-1 has a body"
     RemotePrunes,  \* RemotePrunes[i] = "remote operation with seq i-1 carries the prune flag"
     Policies,      \* subset of {"auto", "explicit"} a node may be started with
-    ResetHeights   \* heights a StreamFrom::Cursor(c) reset may name (bounds the model only)
+    ResetHeights,  \* heights a StreamFrom::Cursor(c) reset may name (bounds the model only)
+    Defect_ReadBeforePermit
+                   \* FALSE = the code: Acked::ack takes the permit of the Acked semaphore first and holds
+                   \* it across read, advance and write (acked.rs:118-139).  TRUE = documentation only
+                   \* (defect_readfirst.cfg, not a registered check): the cursor is read before the permit
+                   \* is taken and only the write is serialised -- TLC then violates CursorMonotone and
+                   \* CursorIsMaxOfAcked with two overlapping acks (lost update).
 
 Authors == {Me} \cup Remotes
 NoneH == -1
@@ -249,20 +255,49 @@ SkipAck ==
     /\ st' = [st EXCEPT !.pc = "deliver"]
     /\ UNCHANGED <<pvars, up, policy, pub, pubq, rq, ackLock, txHolder, chan, app, hvars, bvars>>
 
-\* acked.rs:118-132: semaphore, topic check (always passes here), read cursor, advance in memory
-\*                                                     [*.processed -> acked.ack.after_read]
-AckRead ==
-    /\ up /\ st.pc = "processed" /\ NeedAck(st.op) /\ ackLock = "none"
-    /\ ackLock' = "st"
-    /\ st' = [st EXCEPT !.pc = "ackread", !.rd = Advance(cursor, st.op.a, st.op.seq)]
+\* Acked::ack is a critical section under the permit of the per-stream Acked semaphore, shared by
+\* all clones (stream task, StreamSubscription, every ProcessedOperation):
+\*   acquire permit (acked.rs:118) -> topic check -> read cursor -> advance -> tx { set_cursor } ->
+\*   commit -> permit released.
+\* Two ackers exist on one stream: the stream task (system / automatic acks) and the application.
+
+\* acked.rs:117-118: the call is made.  With the permit free the caller takes it and goes on to the
+\* topic check [*.processed -> acked.ack.before_read]; with the permit held by the other acker it
+\* waits inside semaphore.acquire() -- no schedule point is reached until the holder releases.
+AckEnter ==
+    /\ up /\ st.pc = "processed" /\ NeedAck(st.op)
+    /\ IF Defect_ReadBeforePermit
+       THEN st' = [st EXCEPT !.pc = "acklocked"] /\ UNCHANGED ackLock
+       ELSE IF ackLock = "none"
+            THEN st' = [st EXCEPT !.pc = "acklocked"] /\ ackLock' = "st"
+            ELSE st' = [st EXCEPT !.pc = "ackblocked"] /\ UNCHANGED ackLock
     /\ UNCHANGED <<pvars, up, policy, pub, pubq, rq, txHolder, chan, app, hvars, bvars>>
+
+\* acked.rs:127-132: read the persisted cursor (committed read), advance in memory
+\*                                                     [acked.ack.before_read -> acked.ack.after_read]
+AckRead ==
+    /\ up /\ st.pc = "acklocked"
+    /\ st' = [st EXCEPT !.pc = "ackread", !.rd = Advance(cursor, st.op.a, st.op.seq)]
+    /\ UNCHANGED <<pvars, up, policy, pub, pubq, rq, ackLock, txHolder, chan, app, hvars, bvars>>
 
 \* acked.rs:134-135: begin tx, set_cursor (uncommitted)  [acked.ack.after_read -> acked.ack.before_commit]
 AckWriteTx ==
     /\ up /\ st.pc = "ackread" /\ txHolder = "none"
+    /\ Defect_ReadBeforePermit => ackLock = "none"
+    /\ ackLock' = IF Defect_ReadBeforePermit THEN "st" ELSE ackLock
     /\ txHolder' = "st"
     /\ st' = [st EXCEPT !.pc = "ackintx"]
-    /\ UNCHANGED <<pvars, up, policy, pub, pubq, rq, ackLock, chan, app, hvars, bvars>>
+    /\ UNCHANGED <<pvars, up, policy, pub, pubq, rq, chan, app, hvars, bvars>>
+
+\* The stream task releases the permit: an application ack that waits for it gets it (tokio's
+\* semaphore hands over in FIFO order, there is one other acker), does its topic check and either
+\* returns "rejected" at once or parks before its read.
+AppAfterStRelease ==
+    IF app.pc = "ackblocked"
+    THEN IF app.op.tp # T THEN IdleApp ELSE [app EXCEPT !.pc = "acklocked"]
+    ELSE app
+LockAfterStRelease == IF app.pc = "ackblocked" /\ app.op.tp = T THEN "app" ELSE "none"
+ResAfterStRelease == IF app.pc = "ackblocked" /\ app.op.tp # T THEN "rejected" ELSE lastRes
 
 \* what the stream task does after an operation is through (delivered or, without body, acked)
 NextSt(q) ==
@@ -276,13 +311,14 @@ AckCommit ==
     /\ up /\ st.pc = "ackintx"
     /\ cursor' = st.rd
     /\ ackd' = ackd \cup {st.op}
-    /\ txHolder' = "none" /\ ackLock' = "none"
+    /\ txHolder' = "none"
+    /\ ackLock' = LockAfterStRelease /\ app' = AppAfterStRelease /\ lastRes' = ResAfterStRelease
     /\ IF st.op.body
        THEN /\ st' = [st EXCEPT !.pc = "deliver"]                                   \* [*.before_send]
             /\ rq' = rq
        ELSE /\ st' = NextSt(IF st.ctx = "replay" THEN Tail(rq) ELSE rq)             \* stream.rs:378 None
             /\ rq' = IF st.ctx = "replay" THEN Tail(rq) ELSE rq
-    /\ UNCHANGED <<stored, assoc, up, policy, pub, pubq, chan, app, expect, replayed, sent, base, lastRes, bvars>>
+    /\ UNCHANGED <<stored, assoc, up, policy, pub, pubq, chan, expect, replayed, sent, base, bvars>>
 
 \* app_tx.send(event) (stream.rs:298, replay.rs:95)               [*.before_send -> ...]
 Deliver ==
@@ -310,34 +346,49 @@ AppRecv ==
     /\ UNCHANGED <<pvars, up, policy, pub, pubq, st, rq, ackLock, txHolder, app, hvars, bvars>>
 
 \* StreamSubscription::ack(hash) of ANY stored operation (stream.rs:752-757) -> Acked::ack.
+\* acked.rs:118: permit first (the call waits while the stream task holds it);
 \* acked.rs:123-125: an operation of another topic is rejected before anything is read.
 AppAckBegin(o) ==
-    /\ up /\ app.pc = "idle" /\ ackLock = "none"
+    /\ up /\ app.pc = "idle"
     /\ o \in stored
     /\ nAck' = nAck + 1
-    /\ IF o.tp # T
-       THEN /\ lastRes' = "rejected"
-            /\ UNCHANGED <<app, ackLock>>
-       ELSE /\ lastRes' = "pending"
-            /\ ackLock' = "app"                                                   \* [-> acked.ack.after_read]
-            /\ app' = [pc |-> "ackread", op |-> o, rd |-> Advance(cursor, o.a, o.seq)]
+    /\ IF ~Defect_ReadBeforePermit /\ ackLock # "none"
+       THEN /\ lastRes' = "pending"
+            /\ app' = [pc |-> "ackblocked", op |-> o, rd |-> EmptyCursor]        \* inside semaphore.acquire()
+            /\ UNCHANGED ackLock
+       ELSE IF o.tp # T
+            THEN /\ lastRes' = "rejected"
+                 /\ UNCHANGED <<app, ackLock>>
+            ELSE /\ lastRes' = "pending"
+                 /\ ackLock' = IF Defect_ReadBeforePermit THEN ackLock ELSE "app"
+                 /\ app' = [pc |-> "acklocked", op |-> o, rd |-> EmptyCursor]     \* [-> acked.ack.before_read]
     /\ UNCHANGED <<pvars, up, policy, pub, pubq, st, rq, txHolder, chan, expect, replayed, sent, base, ackd,
                    nPub, nPrune, nImp, nForeign, nReset, crashes>>
 
+AppAckRead ==
+    /\ up /\ app.pc = "acklocked"
+    /\ app' = [app EXCEPT !.pc = "ackread", !.rd = Advance(cursor, app.op.a, app.op.seq)]
+    /\ UNCHANGED <<pvars, up, policy, pub, pubq, st, rq, ackLock, txHolder, chan, hvars, bvars>>
+
 AppAckWriteTx ==
     /\ up /\ app.pc = "ackread" /\ txHolder = "none"
+    /\ Defect_ReadBeforePermit => ackLock = "none"
+    /\ ackLock' = IF Defect_ReadBeforePermit THEN "app" ELSE ackLock
     /\ txHolder' = "app"
     /\ app' = [app EXCEPT !.pc = "ackintx"]
-    /\ UNCHANGED <<pvars, up, policy, pub, pubq, st, rq, ackLock, chan, hvars, bvars>>
+    /\ UNCHANGED <<pvars, up, policy, pub, pubq, st, rq, chan, hvars, bvars>>
 
+\* commit; the permit goes to the stream task if it waits for it
 AppAckCommit ==
     /\ up /\ app.pc = "ackintx"
     /\ cursor' = app.rd
     /\ ackd' = ackd \cup {app.op}
     /\ lastRes' = "ok"
-    /\ txHolder' = "none" /\ ackLock' = "none"
+    /\ txHolder' = "none"
+    /\ ackLock' = IF st.pc = "ackblocked" THEN "st" ELSE "none"
+    /\ st' = IF st.pc = "ackblocked" THEN [st EXCEPT !.pc = "acklocked"] ELSE st
     /\ app' = IdleApp
-    /\ UNCHANGED <<stored, assoc, up, policy, pub, pubq, st, rq, chan, expect, replayed, sent, base, bvars>>
+    /\ UNCHANGED <<stored, assoc, up, policy, pub, pubq, rq, chan, expect, replayed, sent, base, bvars>>
 
 ---------------------------------------------------------------------------
 (* Crash: node, handles, runtime, process gone.  Uncommitted transactions   *)
@@ -364,10 +415,10 @@ Next ==
     \/ (\E pr \in BOOLEAN, b \in BOOLEAN : ForgeBegin(pr, b)) \/ ForgeCommit \/ Enqueue \/ ForgeForeign
     \/ TakePublished
     \/ \E r \in Remotes, s \in 0..(Len(RemoteBodies) - 1) : TakeImported(r, s)
-    \/ PipelineProcess \/ SkipAck \/ AckRead \/ AckWriteTx \/ AckCommit \/ Deliver \/ ReplayEnd
+    \/ PipelineProcess \/ SkipAck \/ AckEnter \/ AckRead \/ AckWriteTx \/ AckCommit \/ Deliver \/ ReplayEnd
     \/ AppRecv
     \/ \E o \in stored : AppAckBegin(o)
-    \/ AppAckWriteTx \/ AppAckCommit
+    \/ AppAckRead \/ AppAckWriteTx \/ AppAckCommit
     \/ Crash
 
 Spec == Init /\ [][Next]_vars
@@ -390,7 +441,10 @@ CursorIsMaxOfAcked ==
 
 \* C07: an ack of an operation of a different topic is rejected and leaves the cursor unchanged
 ForeignTopicRejected ==
-    [][\A o \in stored : (o.tp # T /\ AppAckBegin(o)) => (lastRes' = "rejected" /\ cursor' = cursor)]_vars
+    [][\A o \in stored : (o.tp # T /\ AppAckBegin(o)) =>
+            (cursor' = cursor /\ (lastRes' = "rejected" \/ (ackLock # "none" /\ app'.pc = "ackblocked")))]_vars
+\* ... and such an ack never gets past the topic check, also when it first had to wait for the permit
+ForeignNeverPastCheck == app.pc \in {"acklocked", "ackread", "ackintx"} => app.op.tp = T
 OnlyOwnTopicAcked == \A o \in ackd : o.tp = T
 
 \* C15: when the replay of an incarnation is over, it has handed to the application exactly the
@@ -411,7 +465,7 @@ NeverForgotten ==
                 \/ o \in SeqSet(rq)
                 \/ o \in SeqSet(pubq)
                 \/ (pub.pc = "forged" /\ o = pub.op)
-                \/ (st.pc \in {"taken", "processed", "ackread", "ackintx", "deliver"} /\ o = st.op)
+                \/ (st.pc \in {"taken", "processed", "acklocked", "ackblocked", "ackread", "ackintx", "deliver"} /\ o = st.op)
 
 \* the transcribed mechanism (ranges -> entries) agrees with the declarative set at open time
 ReplayQueueCoversExpect ==
@@ -422,8 +476,8 @@ TypeOK ==
     /\ up \in BOOLEAN
     /\ policy \in {"auto", "explicit"}
     /\ pub.pc \in {"idle", "intx", "forged"}
-    /\ st.pc \in {"off", "idle", "taken", "processed", "ackread", "ackintx", "deliver", "ending"}
-    /\ app.pc \in {"idle", "ackread", "ackintx"}
+    /\ st.pc \in {"off", "idle", "taken", "processed", "acklocked", "ackblocked", "ackread", "ackintx", "deliver", "ending"}
+    /\ app.pc \in {"idle", "acklocked", "ackblocked", "ackread", "ackintx"}
     /\ ackLock \in {"none", "st", "app"}
     /\ txHolder \in {"none", "pub", "st", "app"}
     /\ \A a \in Authors : cursor[a] \in Int
@@ -433,8 +487,11 @@ LocksConsistent ==
     /\ (txHolder = "pub") = (pub.pc = "intx")
     /\ (txHolder = "st") = (st.pc = "ackintx")
     /\ (txHolder = "app") = (app.pc = "ackintx")
-    /\ (ackLock = "st") = (st.pc \in {"ackread", "ackintx"})
-    /\ (ackLock = "app") = (app.pc \in {"ackread", "ackintx"})
+    /\ (ackLock = "st") = (st.pc \in {"acklocked", "ackread", "ackintx"})
+    /\ (ackLock = "app") = (app.pc \in {"acklocked", "ackread", "ackintx"})
+    \* an acker waits only while the other one holds the permit; never both
+    /\ st.pc = "ackblocked" => ackLock = "app"
+    /\ app.pc = "ackblocked" => ackLock = "st"
 
 \* insert and topic association are one transaction: never one without the other
 StoredIsAssociated == \A o \in stored : <<o.tp, o.a>> \in assoc
